@@ -166,15 +166,342 @@ BM_CONFIGS_THOROUGH = BM_CONFIGS_QUICK + [
 ]
 
 
+CTRL_BASE = dict(bankbits=1, rowbits=11, colbits=10, nphases=2, memtype="DDR2", cl=3, cwl=2, read_latency=3,
+                 write_latency=1, cmd_buffer_depth=4, tRRD=2, tRFC=3, tRAS=3, tRC=5, databits=4, dfi_databits=8)
+
+
+def _cc(**kw):
+    d = dict(CTRL_BASE)
+    d.update(kw)
+    return d
+
+
+CTRL_CONFIGS_QUICK = [
+    _cc(),
+    _cc(nphases=4, memtype="DDR3", cl=6, cwl=5, read_latency=5, rdphase=2, wrphase=3, bankbits=2, with_auto_precharge=False),
+    _cc(nphases=1, memtype="SDR", cl=2, cwl=None, read_latency=4, write_latency=0, rdphase=0, wrphase=0, tRRD=None),
+    _cc(nranks=2, tZQCS=4, refresh_zqcs_freq=1e6, nphases=4, memtype="DDR3", cl=6, cwl=5, read_latency=5, rdphase=1, wrphase=2),
+]
+CTRL_CONFIGS_THOROUGH = CTRL_CONFIGS_QUICK + [
+    _cc(tRP=3, tRCD=3, tRAS=7, tRC=10),
+    _cc(bankbits=2, nranks=2, nphases=2, cmd_buffer_depth=8, cmd_buffer_buffered=True),
+    _cc(nphases=4, memtype="DDR4", cl=9, cwl=9, read_latency=6, rdphase=3, wrphase=0, bankbits=2, tZQCS=8, refresh_zqcs_freq=1e6,
+        tFAW=6, tCCD=2),
+    _cc(nphases=2, memtype="DDR", cl=3, cwl=None, read_latency=3, rdphase=1, wrphase=0, colbits=11, rowbits=13,
+        with_auto_precharge=True),
+]
+
+
 def tasks(tier):
     out = []
     cfgs = BM_CONFIGS_QUICK if tier == "quick" else BM_CONFIGS_THOROUGH
     for cfg in cfgs:
         out.append(dict(fn="bm_contract", cfg=cfg, modes=["inductive", "cover", "difftest"]))
+    for cfg in (CTRL_CONFIGS_QUICK if tier == "quick" else CTRL_CONFIGS_THOROUGH):
+        out.append(dict(fn="ctrl_contract", cfg=cfg, modes=["inductive", "cover", "difftest"], weight=10,
+                        difftest_cycles=150 if tier == "quick" else 1500, timeout_ms=600000))
     return out
+
 
 LEVEL = "proof"
 FUNCTIONS = ["litedram.core.bankmachine:BankMachine.__init__", "litedram.core.bankmachine:_AddressSlicer.row",
-             "litedram.core.bankmachine:_AddressSlicer.col", "litedram.common:tXXDController.__init__"]
+             "litedram.core.bankmachine:_AddressSlicer.col", "litedram.common:tXXDController.__init__",
+             "litedram.core.controller:LiteDRAMController.__init__", "litedram.core.multiplexer:Multiplexer.__init__",
+             "litedram.core.multiplexer:_Steerer.__init__", "litedram.core.multiplexer:_CommandChooser.__init__",
+             "litedram.core.refresher:Refresher.__init__", "litedram.core.refresher:RefreshExecuter.__init__",
+             "litedram.core.refresher:RefreshSequencer.__init__", "litedram.core.refresher:ZQCSExecuter.__init__",
+             "litedram.core.refresher:RefreshTimer.__init__", "litedram.core.refresher:RefreshPostponer.__init__",
+             "litex.gen.genlib.misc:timeline", "migen.genlib.roundrobin:RoundRobin.__init__"]
 ASSUMPTIONS = []
 EXPLANATION = ""
+
+
+# ----------------------------------------------------------------------------------------------------------------------
+# Controller-level composition: real LiteDRAMController (bank machines + multiplexer + steerer + refresher)
+# ----------------------------------------------------------------------------------------------------------------------
+
+class CtrlHarness(Module):
+    def __init__(self, cfg):
+        cfg = dict(cfg)
+        self.clk_freq = cfg.pop("clk_freq", 100e6)
+        s = mk_settings(**cfg)
+        self.settings = s
+        with capture_locals(BankMachine.__init__, _misc.timeline, Multiplexer.__init__, Refresher.__init__,
+                            _Steerer.__init__) as cap:
+            self.submodules.ctrl = ctrl = LiteDRAMController(s.phy, s.geom, s.timing, self.clk_freq, s)
+        self.bms = [cap.of(bm) for bm in ctrl.multiplexer_bank_machines] if hasattr(ctrl, "multiplexer_bank_machines") \
+            else cap.calls["BankMachine.__init__"]
+        self.timelines = cap.calls.get("timeline", [])
+        self.ML = cap.of(ctrl.multiplexer)
+        self.RL = cap.of(ctrl.refresher)
+        self.SL = cap.calls["_Steerer.__init__"][0]
+
+
+def ctrl_free_inputs(ctrl):
+    free = []
+    for i in range(ctrl.interface.nbanks):
+        b = getattr(ctrl.interface, "bank%d" % i)
+        free += [b.valid, b.we, b.addr]
+    free += [ctrl.interface.wdata, ctrl.interface.wdata_we]
+    for ph in ctrl.dfi.phases:
+        free += [ph.rddata, ph.rddata_valid]
+    return free
+
+
+class DfiDecode:
+    """JEDEC command decode of one DFI phase (registered steerer outputs)"""
+
+    def __init__(self, ph, nranks, bankbits):
+        self.ph, self.nranks, self.bankbits = ph, nranks, bankbits
+
+    def sel(self, f, rank):
+        return Not(bit(f(self.ph.cs_n), rank))
+
+    def _c(self, f, ras, cas, we):
+        ph = self.ph
+        return And(f.b(ph.ras_n) != ras, f.b(ph.cas_n) != cas, f.b(ph.we_n) != we)
+
+    def act(self, f): return self._c(f, True, False, False)
+    def pre(self, f): return self._c(f, True, False, True)
+    def ref(self, f): return self._c(f, True, True, False)
+    def rd(self, f): return self._c(f, False, True, False)
+    def wr(self, f): return self._c(f, False, True, True)
+    def zqc(self, f): return self._c(f, False, False, True)
+    def mrs(self, f): return self._c(f, True, True, True)
+    def nop(self, f): return self._c(f, False, False, False)
+    def a10(self, f): return bit(f(self.ph.address), 10)
+
+    def bank_is(self, f, b):
+        return f(self.ph.bank) == BV(b, len(self.ph.bank))
+
+
+def ctrl_contract(cfg):
+    h = CtrlHarness(cfg)
+    ctrl, s = h.ctrl, h.settings
+    mux, refr = ctrl.multiplexer, ctrl.refresher
+    c = Contract("LiteDRAMController", h, ctrl_free_inputs(ctrl), k=cfg.get("k", 2) if False else 2, cfg=cfg)
+    nranks, bankbits = s.phy.nranks, s.geom.bankbits
+    nb = 1 << bankbits
+    nph = s.phy.nphases
+    rc = refr.cmd
+    racc = lambda f: And(f.b(rc.valid), f.b(rc.ready))
+    prea = lambda f: And(racc(f), f.b(rc.ras), Not(f.b(rc.cas)), f.b(rc.we))
+    r_ref = lambda f: And(racc(f), f.b(rc.ras), f.b(rc.cas), Not(f.b(rc.we)))
+    r_zq = lambda f: And(racc(f), Not(f.b(rc.ras)), Not(f.b(rc.cas)), f.b(rc.we))
+    dec = [DfiDecode(ph, nranks, bankbits) for ph in ctrl.dfi.phases]
+    BM = []
+    for i, L in enumerate(h.bms):
+        bm = L["self"]
+        x = bm_views(bm, L)
+        BM.append((bm, L, x))
+    c.ghost("rreq_prev", "bool", False, lambda f: f.b(rc.valid))
+    rowbits = s.geom.rowbits
+    for i, (bm, L, x) in enumerate(BM):
+        P = "b%d_" % i
+        c.ghost(P + "open", "bool", False, lambda f, x=x, P=P: If_(
+            prea(f), False, If_(x.act(f), True, If_(Or(x.pre(f), And(x.rw(f), x.a10(f))), False, f.g[P + "open"]))))
+        c.ghost(P + "row", rowbits, 0, lambda f, x=x, bm=bm, P=P: If_(
+            x.act(f), z3.Extract(rowbits - 1, 0, f(bm.cmd.a)), f.g[P + "row"]))
+        c.ghost(P + "seen", "bool", False, lambda f, bm=bm, P=P: If_(
+            Not(f.b(bm.refresh_req)), False, Or(f.g[P + "seen"], prea(f))))
+        c.ghost(P + "rreq_prev", "bool", False, lambda f, bm=bm: f.b(bm.refresh_req))
+        # controller's belief one cycle ago (= what the DRAM must be in before the command now on the DFI pins)
+        c.ghost(P + "p_open", "bool", False, lambda f, P=P: f.g[P + "open"])
+        c.ghost(P + "p_row", rowbits, 0, lambda f, P=P: f.g[P + "row"])
+        # the bank machine's command accepted in the previous cycle (what must be on the pins now)
+        c.ghost(P + "pc", 3, 0, lambda f, x=x: If_(x.act(f), BV(1, 3), If_(x.pre(f), BV(2, 3), If_(
+            x.rd(f), BV(3, 3), If_(x.wr(f), BV(4, 3), BV(0, 3))))))
+        c.ghost(P + "pc_a", len(bm.cmd.a), 0, lambda f, bm=bm: f(bm.cmd.a))
+        c.ghost(P + "pc_row", rowbits, 0, lambda f, x=x: x.req_row(f))
+        # reference DRAM bank state driven by the DFI pins only
+        rank, bank = i >> bankbits, i & (nb - 1)
+
+        def dfi_upd(f, P=P, rank=rank, bank=bank):
+            o, r = f.g[P + "d_open"], f.g[P + "d_row"]
+            for d in dec:
+                sel = d.sel(f, rank)
+                tgt = And(sel, d.bank_is(f, bank))
+                closes = Or(And(sel, d.pre(f), Or(d.a10(f), d.bank_is(f, bank))), And(tgt, Or(d.rd(f), d.wr(f)), d.a10(f)))
+                o, r = (If_(And(tgt, d.act(f)), True, If_(closes, False, o)),
+                        If_(And(tgt, d.act(f)), z3.Extract(rowbits - 1, 0, f(d.ph.address)), r))
+            return o, r
+        c.ghost(P + "d_open", "bool", False, lambda f, u=dfi_upd: u(f)[0])
+        c.ghost(P + "d_row", rowbits, 0, lambda f, u=dfi_upd: u(f)[1])
+    c.ghost("pr", 2, 0, lambda f: If_(prea(f), BV(1, 2), If_(r_ref(f), BV(2, 2), If_(r_zq(f), BV(3, 2), BV(0, 2)))))
+
+    # ---- per-bank invariants (the BankMachine contract's) + the environment assumptions now as obligations
+    for i, (bm, L, x) in enumerate(BM):
+        P = "b%d_" % i
+        bm_invariants(c, bm, L, pfx=P)
+        c.ensures(P + "env.prea_only_when_granted", lambda f, bm=bm: Implies(
+            prea(f), And(f.b(bm.refresh_gnt), f.b(bm.refresh_req))))
+        c.invariant(P + "env.refresh_req_falls_only_after_prea", lambda f, bm=bm, P=P: Implies(
+            And(f.g[P + "rreq_prev"], Not(f.b(bm.refresh_req))), f.g[P + "seen"]))
+    # ---- linking invariants multiplexer <-> refresher <-> bank machines
+    rfsm, mfsm = refr.fsm, mux.fsm
+    tl = h.timelines
+    cnt = tl[0]["counter"]
+    zcnt = tl[1]["counter"] if len(tl) > 1 else None
+    tRP = s.timing.tRP
+    all_bm_refresh = lambda f: And(*[state_is(f, bm.fsm, "REFRESH") for bm, L, x in BM])
+    all_twtp = lambda f: And(*[f.b(L["twtpcon"].ready) for bm, L, x in BM])
+    all_seen = lambda f: And(*[f.g["b%d_seen" % i] for i in range(len(BM))])
+    doing = ["DO-REFRESH"] + (["DO-ZQCS"] if "DO-ZQCS" in rfsm.encoding else [])
+    c.invariant("fsm_states_in_range", lambda f: And(state_in_range(f, rfsm), state_in_range(f, mfsm)))
+    c.invariant("mux_refresh_implies_banks_parked", lambda f: Implies(
+        state_is(f, mfsm, "REFRESH"),
+        And(state_is(f, rfsm, "WAIT-BANK-MACHINES", *doing), all_bm_refresh(f), all_twtp(f))))
+    c.invariant("refresher_busy_implies_mux_refresh", lambda f: Implies(
+        state_is(f, rfsm, *doing), state_is(f, mfsm, "REFRESH")))
+    zero_cmd = lambda f: And(f(rc.ras) == 0, f(rc.cas) == 0, f(rc.we) == 0)
+    idle_cnt = lambda f: And(f(cnt) == 0, f(zcnt) == 0) if zcnt is not None else f(cnt) == 0
+    c.invariant("refresher_idle_outside_sequences", lambda f: Implies(
+        Not(state_is(f, rfsm, *doing)), And(idle_cnt(f), zero_cmd(f))))
+    if zcnt is not None:
+        c.invariant("one_timeline_at_a_time", lambda f: And(
+            Implies(state_is(f, rfsm, "DO-REFRESH"), f(zcnt) == 0),
+            Implies(state_is(f, rfsm, "DO-ZQCS"), f(cnt) == 0)))
+    any_cnt_ge2 = lambda f: Or(UGE(f(cnt), 2), UGE(f(zcnt), 2)) if zcnt is not None else UGE(f(cnt), 2)
+    c.invariant("after_prea_every_bank_has_seen_it", lambda f: Implies(
+        And(state_is(f, rfsm, *doing), any_cnt_ge2(f)), all_seen(f)))
+    is1 = lambda f: Or(f(cnt) == 1, f(zcnt) == 1) if zcnt is not None else f(cnt) == 1
+    c.invariant("prea_register_only_at_count_1", lambda f: Implies(
+        And(f.b(rc.ras), Not(f.b(rc.cas))), And(is1(f), f.b(rc.we), bit(f(rc.a), 10))))
+    c.invariant("ref_register_only_after_trp", lambda f: Implies(
+        And(f.b(rc.ras), f.b(rc.cas)), And(f(cnt) == tRP + 1, Not(f.b(rc.we)))))
+    if zcnt is not None:
+        c.invariant("zqcs_register_only_after_trp", lambda f: Implies(
+            And(Not(f.b(rc.ras)), f.b(rc.we)), And(f(zcnt) == tRP + 1, Not(f.b(rc.cas)))))
+    else:
+        c.invariant("no_other_refresher_opcode", lambda f: Implies(Not(f.b(rc.ras)), And(Not(f.b(rc.we)), Not(f.b(rc.cas)))))
+    seq = refr.sequencer
+    dones = [seq.done] + ([refr.zqs_executer.done] if zcnt is not None else [])
+    c.invariant("done_only_after_prea_seen", lambda f: Implies(
+        Or(*[f.b(d) for d in dones]), And(all_seen(f), state_is(f, rfsm, *doing))))
+    # ---- DFI pins <-> what the steerer selected in the previous cycle (ghost copy of the selection, per phase)
+    steerer = h.SL["self"]
+    commands = h.SL["commands"]
+    babits = len(rc.ba)
+
+    def steered(f, p):
+        """(kind, ba, a) of the command steered to phase p this cycle: kind 0 none, 1 ACT, 2 PRE, 3 RD, 4 WR,
+        5 PREA(refresher), 6 REF, 7 ZQCS, taken from the selected source's accepted command"""
+        sel = f(steerer.sel[p])
+        kind, ba, a = BV(0, 3), BV(0, babits), BV(0, len(rc.a))
+        for idx, cmd in enumerate(commands):
+            if not hasattr(cmd, "valid"):
+                continue
+            acc = And(f.b(cmd.valid), f.b(cmd.ready))
+            ras, cas, we = f.b(cmd.ras), f.b(cmd.cas), f.b(cmd.we)
+            if cmd is rc:
+                k = If_(And(ras, Not(cas), we), BV(5, 3), If_(And(ras, cas, Not(we)), BV(6, 3), If_(
+                    And(Not(ras), Not(cas), we), BV(7, 3), BV(0, 3))))
+            else:
+                k = If_(And(ras, Not(cas), Not(we)), BV(1, 3), If_(And(ras, Not(cas), we), BV(2, 3), If_(
+                    And(Not(ras), cas, Not(we)), BV(3, 3), If_(And(Not(ras), cas, we), BV(4, 3), BV(0, 3)))))
+            here = sel == BV(idx, sel.size())
+            kind = If_(And(here, acc), k, kind)
+            ba = If_(here, zext(f(cmd.ba), babits), ba)
+            a = If_(here, f(cmd.a), a)
+        return kind, ba, a
+    for p in range(nph):
+        c.ghost("pk%d" % p, 3, 0, lambda f, p=p: steered(f, p)[0])
+        c.ghost("pb%d" % p, babits, 0, lambda f, p=p: steered(f, p)[1])
+        c.ghost("pa%d" % p, len(rc.a), 0, lambda f, p=p: steered(f, p)[2])
+
+    def pins_are(f, p):
+        d = dec[p]
+        k, ba, a = f.g["pk%d" % p], f.g["pb%d" % p], f.g["pa%d" % p]
+        bank = z3.Extract(bankbits - 1, 0, ba) if bankbits else None
+        cl = [d.nop(f) == (k == 0), d.act(f) == (k == 1), d.pre(f) == Or(k == 2, k == 5), d.rd(f) == (k == 3),
+              d.wr(f) == (k == 4), d.ref(f) == (k == 6), d.zqc(f) == (k == 7), Not(d.mrs(f)),
+              f.b(d.ph.rddata_en) == (k == 3), f.b(d.ph.wrdata_en) == (k == 4),
+              Implies(k != 0, eqv(f(d.ph.address), a))]
+        if bankbits:
+            cl.append(Implies(k != 0, eqv(f(d.ph.bank), bank)))
+        if nranks > 1:
+            rank = z3.Extract(babits - 1, bankbits, ba)
+            cl.append(Implies(And(k != 0, ULT(k, 5)), And(*[
+                Implies(rank == BV(r, rank.size()), f(d.ph.cs_n) == BV(((1 << nranks) - 1) ^ (1 << r), nranks))
+                for r in range(nranks)])))
+            cl.append(Implies(UGE(k, 5), f(d.ph.cs_n) == 0))
+        else:
+            cl.append(Implies(k != 0, f(d.ph.cs_n) == 0))
+        return And(*cl)
+    for p in range(nph):
+        c.invariant("p%d_pins_carry_steered_command" % p, lambda f, p=p: pins_are(f, p))
+        c.invariant("p%d_steered_command_placement" % p, lambda f, p=p: And(
+            Implies(f.g["pk%d" % p] == 3, z3.BoolVal(p == s.phy.rdphase)),
+            Implies(f.g["pk%d" % p] == 4, z3.BoolVal(p == s.phy.wrphase)),
+            Implies(f.g["pk%d" % p] == 5, bit(f.g["pa%d" % p], 10)),
+            Implies(UGE(f.g["pk%d" % p], 5), And(z3.BoolVal(p == 0), f.g.pr == z3.Extract(1, 0, f.g["pk%d" % p] - 4))),
+            Implies(And(f.g.pr != 0), f.g["pk%d" % p] == (zext(f.g.pr, 3) + 4 if p == 0 else BV(0, 3)))))
+    for i in range(len(BM)):
+        P = "b%d_" % i
+
+        def bank_cmd_on_one_phase(f, i=i, P=P):
+            pc = f.g[P + "pc"]
+            on = [And(f.g["pk%d" % p] == pc, f.g["pb%d" % p] == BV(i, babits), eqv(f.g["pa%d" % p], f.g[P + "pc_a"]))
+                  for p in range(nph)]
+            cl = [Implies(pc != 0, Or(*on))]
+            for p in range(nph):
+                k = f.g["pk%d" % p]
+                cl.append(Implies(And(k != 0, ULT(k, 5), f.g["pb%d" % p] == BV(i, babits)), on[p]))
+            for p in range(nph):
+                for q in range(p + 1, nph):
+                    cl.append(Not(And(on[p], on[q], pc != 0)))
+            return And(*cl)
+        c.invariant(P + "steered_commands_are_the_bank_machines", bank_cmd_on_one_phase)
+        c.invariant(P + "reference_dram_equals_controller_belief", lambda f, P=P: And(
+            f.g[P + "d_open"] == f.g[P + "p_open"], Implies(f.g[P + "p_open"], f.g[P + "d_row"] == f.g[P + "p_row"])))
+        c.invariant(P + "previous_command_was_legal", lambda f, P=P: And(
+            Implies(f.g[P + "pc"] == 1, Not(f.g[P + "p_open"])),
+            Implies(Or(f.g[P + "pc"] == 3, f.g[P + "pc"] == 4),
+                    And(f.g[P + "p_open"], f.g[P + "p_row"] == f.g[P + "pc_row"])),
+            Implies(f.g.pr != 0, f.g[P + "pc"] == 0),
+            Implies(f.g[P + "pc"] == 2, Not(bit(f.g[P + "pc_a"], 10))),      # explicit precharge is single-bank
+            Implies(Or(f.g.pr == 2, f.g.pr == 3), Not(f.g[P + "p_open"]))))
+    d0 = dec[0]
+
+    # ---- the property's clauses, on the DFI pins against the reference DRAM bank state
+    def seq_open(f, i, upto):
+        """reference state of bank i after the commands on phases < upto of this cycle"""
+        P = "b%d_" % i
+        rank, bank = i >> bankbits, i & (nb - 1)
+        o, r = f.g[P + "d_open"], f.g[P + "d_row"]
+        for d in dec[:upto]:
+            sel = d.sel(f, rank)
+            tgt = And(sel, d.bank_is(f, bank))
+            closes = Or(And(sel, d.pre(f), Or(d.a10(f), d.bank_is(f, bank))), And(tgt, Or(d.rd(f), d.wr(f)), d.a10(f)))
+            o, r = (If_(And(tgt, d.act(f)), True, If_(closes, False, o)),
+                    If_(And(tgt, d.act(f)), z3.Extract(rowbits - 1, 0, f(d.ph.address)), r))
+        return o, r
+    rdphase, wrphase = s.phy.rdphase, s.phy.wrphase
+    for p, d in enumerate(dec):
+        for i in range(len(BM)):
+            rank, bank = i >> bankbits, i & (nb - 1)
+            P = "b%d_" % i
+            tgt = lambda f, d=d, rank=rank, bank=bank: And(d.sel(f, rank), d.bank_is(f, bank))
+            c.ensures("dfi.p%d.b%d.activate_only_precharged_bank" % (p, i), lambda f, d=d, tgt=tgt, i=i, p=p: Implies(
+                And(tgt(f), d.act(f)), Not(seq_open(f, i, p)[0])))
+            c.ensures("dfi.p%d.b%d.read_write_only_open_request_row" % (p, i), lambda f, d=d, tgt=tgt, i=i, p=p, P=P: Implies(
+                And(tgt(f), Or(d.rd(f), d.wr(f))),
+                And(seq_open(f, i, p)[0], seq_open(f, i, p)[1] == f.g[P + "pc_row"])))
+            c.ensures("dfi.p%d.b%d.refresh_zqcs_only_all_precharged" % (p, i), lambda f, d=d, i=i, p=p, rank=rank: Implies(
+                And(d.sel(f, rank), Or(d.ref(f), d.zqc(f))), Not(seq_open(f, i, p)[0])))
+        c.ensures("dfi.p%d.read_on_read_phase_with_strobe" % p, lambda f, d=d, p=p: And(
+            Implies(d.rd(f), z3.BoolVal(p == rdphase)), f.b(d.ph.rddata_en) == d.rd(f)))
+        c.ensures("dfi.p%d.write_on_write_phase_with_strobe" % p, lambda f, d=d, p=p: And(
+            Implies(d.wr(f), z3.BoolVal(p == wrphase)), f.b(d.ph.wrdata_en) == d.wr(f)))
+        c.ensures("dfi.p%d.never_mode_register_set" % p, lambda f, d=d: Not(d.mrs(f)))
+        if nranks > 1:
+            c.ensures("dfi.p%d.chip_select_one_rank_or_all_for_refresh" % p, lambda f, d=d: And(
+                Implies(Or(d.act(f), d.rd(f), d.wr(f), And(d.pre(f), Not(d.a10(f)))),
+                        Or(*[f(d.ph.cs_n) == BV(((1 << nranks) - 1) ^ (1 << r), nranks) for r in range(nranks)])),
+                Implies(Or(d.ref(f), d.zqc(f), And(d.pre(f), d.a10(f))), f(d.ph.cs_n) == 0)))
+    c.ensures("cke_high_all_ranks", lambda f: And(*[f(d.ph.cke) == BV((1 << nranks) - 1, nranks) for d in dec]))
+    # vacuity guards
+    c.cover("dfi_activate", lambda f: Or(*[d.act(f) for d in dec]), within=40)
+    c.cover("dfi_read", lambda f: Or(*[d.rd(f) for d in dec]), within=46)
+    c.cover("dfi_write", lambda f: Or(*[d.wr(f) for d in dec]), within=46)
+    return c
